@@ -371,12 +371,56 @@ def explore(ck: Check, n_docs: int) -> None:
             return None
 
         m = mirror(schema, doc)
+        if not m:
+            # the public entry point (SchemaMaker.from_json) gives the same mirror of the document
+            try:
+                from stingray.schema_instance import SchemaMaker
+                m = mirror(SchemaMaker.from_json(doc), doc)
+            except BaseException as ex:  # noqa: BLE001
+                m = f"SchemaMaker.from_json raises {err_enum(ex)}"
         if m:
             ck.fail("title-shadows-anchor" if (clash and "$anchor" in m) else "mirror", m, inp)
         if clash and m:
             continue     # navigation through a mis-resolved reference is the same known finding
         if doc != before:
             ck.fail("document-mutated", "loading changed the document", inp)
+        # ---- the same content with every object's properties listed in the reverse order, loaded AFTERWARDS in the same process:
+        # a document in its own right -- its order, its own objects given back by json()
+        if not m and i % 2 == 0:
+            def reorder(d: Any) -> Any:
+                if isinstance(d, dict):
+                    out_ = {k: reorder(v) for k, v in d.items()}
+                    if isinstance(out_.get("properties"), dict):
+                        out_["properties"] = dict(reversed(list(out_["properties"].items())))
+                    return out_
+                if isinstance(d, list):
+                    return [reorder(x) for x in d]
+                return d
+            doc2 = reorder(doc)
+            if any(isinstance(n.get("properties"), dict) and len(n["properties"]) > 1 for n in nodes):
+                ck.oracle_evaluations += 1
+                try:
+                    from stingray.schema_instance import SchemaMaker
+                    SchemaMaker.from_json(doc)        # the public entry point, first document first
+                    out2, schema2 = "ok", SchemaMaker.from_json(doc2)
+                except BaseException as ex:  # noqa: BLE001
+                    out2, schema2 = err_enum(ex), None
+                nodes2: list[dict[str, Any]] = []
+                collect(doc2, nodes2)
+                saved, anchors = anchors, {}
+                for n in nodes2:
+                    if "$anchor" in n:
+                        anchors.setdefault(n["$anchor"], n)
+                try:
+                    if schema2 is None:
+                        ck.fail("load-fails", f"the same document with its properties listed in reverse order does not load: {out2}", {"document": doc2})
+                    else:
+                        m2 = mirror(schema2, doc2)
+                        if m2 and not clash:
+                            ck.fail("mirror", f"the same content with its properties in reverse order, loaded after the first document: {m2}",
+                                    {"document": doc2, "loaded_before": doc})
+                finally:
+                    anchors = saved
         # ---- DNav vs plain indexing
         inst = conforming(rng, doc, anchors)
         unp = Delimited()
